@@ -183,6 +183,73 @@ func stepWalkOffsets(rng *gen.RNG, n int) []int64 {
 	return o
 }
 
+// relatedCounters: one-goroutine history of counters that agree with a base counter in their low b bits or in
+// their high bits, for every b = 1..63 - base, base + k*2^b, base with bit b flipped, base mod 2^b, base with the
+// upper half replaced, the two 32-bit halves swapped - each followed by the base again. With one key and parameter
+// set throughout, anything that identifies "the same request" by a packed, truncated, folded or narrowed form of the
+// counter (shifted into a word next to other fields, cut to 32 or 56 bits, XOR-folded) answers one of these with a
+// neighbour's remembered result. Values above limit are left out.
+func relatedCounters(rng *gen.RNG, base, limit uint64) []uint64 {
+	out := []uint64{base}
+	add := func(v uint64) {
+		if v <= limit && v != base {
+			out = append(out, v, base)
+		}
+	}
+	bits := make([]int, 63)
+	for i := range bits {
+		bits[i] = i
+	}
+	for i := len(bits) - 1; i > 0; i-- {
+		j := rng.Intn(i + 1)
+		bits[i], bits[j] = bits[j], bits[i]
+	}
+	for _, b0 := range bits {
+		b := uint(b0 + 1)
+		add(base ^ 1<<b)
+		add(base + uint64(1+rng.Intn(3))<<b)
+		add(base&(1<<b-1) | rng.U64()&^(1<<b-1)&limit)
+		add(base & (1<<b - 1))
+		add(base&^(1<<b-1) | rng.U64()&(1<<b-1))
+	}
+	add(base<<32 | base>>32)
+	add(base ^ base<<32)
+	// the related values once more without returning to the base in between (an entry overwritten by a relative and
+	// then asked for by another relative)
+	n := len(out)
+	for i := 1; i < n; i += 2 {
+		out = append(out, out[i])
+	}
+	return out
+}
+
+// c02RelatedSteps: GenerateTOTP with one secret and parameter set at instants whose time steps are bit-related.
+func c02RelatedSteps(c *Ctx) {
+	rng := c.RNG.Fork(2020)
+	for w := 0; w < c.N(24, 300); w++ {
+		p := gen.Pick(rng, []uint64{0, 1, 1, 30, 30, 60, 3600})
+		pp := p
+		if pp == 0 {
+			pp = 30
+		}
+		limit := (uint64(1)<<62 - pp) / pp
+		base := gen.Pick(rng, []uint64{uint64(rng.Intn(1000)), uint64(rng.Intn(1 << 30)), rng.U64() % (1 << 40), rng.U64() % limit})
+		k0 := totpCase{KeyHex: hexs(rng.Bytes(20)), Period: p, Digits: uint8(6 + rng.Intn(5)), Algo: uint8(rng.Intn(3)), NilParam: w%8 == 7}
+		if k0.NilParam {
+			pp, k0.Period = 30, 30
+			limit = (uint64(1)<<62 - pp) / pp
+			base %= limit
+		}
+		k0.Secret = ref.Base32EncodeNoPad(unhex(k0.KeyHex))
+		for _, step := range relatedCounters(rng, base, limit) {
+			k := k0
+			k.At = gen.InstantSpec{Unix: int64(step*pp) + int64(rng.Intn(int(pp))), Ns: int64(rng.Intn(1000000000)), Zone: 0}
+			judgeTOTP(c, k)
+			c.R.Count("bit_related_step_history_calls", 1)
+		}
+	}
+}
+
 func c02StepWalk(c *Ctx) {
 	rng := c.RNG.Fork(202)
 	for w := 0; w < c.N(12, 150); w++ {
@@ -208,6 +275,7 @@ func init() {
 		ID: "C02",
 		Rule: "cases = instants (0..2^62, step boundaries +-2 s, 2^31/2^32 edges) x nanoseconds x locations x monotonic readings x periods (0,1,..,2^32, larger than the instant) x digits x hashes x arbitrary Skew (unused by generation), each GenerateTOTP result compared with the reference HOTP at floor(unix/period); " +
 			"a reduced differential against the same reference models also runs in a binary built for GOARCH=386 (32-bit int/uint; observed.evaluations_on_a_32bit_build); " +
+			"one-goroutine histories with one secret and parameter set: walks over adjacent steps, and time steps that agree with a base step in their low or high b bits for every b (observed.bit_related_step_history_calls); " +
 			"distinct_nontrivial counts distinct (key,unix second,period,digits,hash) tuples with supported parameters whose code was compared, plus distinct defaults-consistency tuples",
 		Run: func(c *Ctx) {
 			rng := c.RNG.Fork(2)
@@ -284,6 +352,7 @@ func init() {
 			}
 			parallelJudge(c, groups, judgeSameSecond)
 			c02StepWalk(c)
+			c02RelatedSteps(c)
 			runArch386(c)
 			// step pairs on one goroutine with one secret and parameter set: instant A, then instant B in another
 			// step whose monotonic reading disagrees with its wall clock (equal to A's reading, or A's plus/minus a
